@@ -2,3 +2,6 @@
 mixed co_f(object o) { return o->f(); }
 mixed co_g(object o) { return o->g(); }
 mixed co_z(object o) { return o->zz_absent(); }
+// a call_other issued at a chosen call depth (the harness picks n so that the callee's frame is the one that does not fit)
+mixed deep_f(int n, object o) { if (n > 0) return deep_f(n - 1, o); return o->f(); }
+mixed deep_g(int n, object o) { if (n > 0) return deep_g(n - 1, o); return o->g(); }
